@@ -414,3 +414,127 @@ package ristretto
 //@   ensures [C02,C06] #updated result1 ==> old(gcHas(m.data, newItem.Key)) && conflictOK(old(m.data[newItem.Key]), newItem.Conflict) && isItem(m.data[newItem.Key], newItem) && gcSameRef(result0, old(m.data[newItem.Key].value))
 //@   ensures [C01,C02] #refused !result1 ==> sameEntry(m.data[newItem.Key], old(m.data[newItem.Key]))
 //@   ensures [C01] #absent !old(gcHas(m.data, newItem.Key)) || !conflictOK(old(m.data[newItem.Key]), newItem.Conflict) ==> !result1 && gcSameRef(result0, zeroValue[V]())
+
+// ---------------------------------------------------------------- store.go: shardedMap (C01, C07, C13)
+//@ decl implements store = shardedMap
+//@ decl implements ringConsumer = defaultPolicy
+
+//@ spec wfSharded[V any](sm *shardedMap[V]) bool = sm != nil && len(sm.shards) == 256 && (forall i int :: 0 <= i && i < 256 ==> sm.shards[i] != nil && gcAllocated(sm.shards[i]) && sm.shards[i].em == sm.expiryMap) && forall i, j int :: 0 <= i && i < j && j < 256 ==> sm.shards[i] != sm.shards[j]
+//@ spec shardOf[V any](sm *shardedMap[V], key uint64) *lockedMap[V] = sm.shards[key%numShards]
+//@ spec smHas[V any](sm *shardedMap[V], key uint64) bool = gcHas(shardOf(sm, key).data, key)
+//@ spec smEntry[V any](sm *shardedMap[V], key uint64) storeItem[V] = shardOf(sm, key).data[key]
+
+//@ func (sm *shardedMap) Get(key, conflict uint64) (V, bool)
+//@   requires wfSharded(sm)
+//@   ensures [C01] #stored result1 ==> smHas(sm, key) && gcSameRef(result0, smEntry(sm, key).value) && conflictOK(smEntry(sm, key), conflict) && smEntry(sm, key).key == key
+//@   ensures [C07] #live result1 ==> entryLive(smEntry(sm, key), gcNow())
+//@   ensures [C07] #notearly !result1 && smHas(sm, key) && conflictOK(smEntry(sm, key), conflict) ==> !entryLive(smEntry(sm, key), gcNow())
+
+//@ func (sm *shardedMap) Expiration(key uint64) time.Time
+//@   requires wfSharded(sm)
+//@   ensures [C07] result == smEntry(sm, key).expiration && (!smHas(sm, key) ==> result.IsZero())
+
+//@ func (sm *shardedMap) Set(i *Item[V])
+//@   requires wfSharded(sm) && bucketDurationSecs > 0
+//@   modifies shardOf(sm, i.Key).data[*], sm.expiryMap.buckets[*], sm.expiryMap.buckets[*][*]
+//@   ensures [C01,C13] #others forall k uint64 :: i == nil || k != i.Key ==> smHas(sm, k) == old(smHas(sm, k)) && sameEntry(smEntry(sm, k), old(smEntry(sm, k)))
+//@   ensures [C01] #conflict i != nil && old(smHas(sm, i.Key)) && !conflictOK(old(smEntry(sm, i.Key)), i.Conflict) ==> smHas(sm, i.Key) && sameEntry(smEntry(sm, i.Key), old(smEntry(sm, i.Key)))
+//@   ensures [C01] #value i != nil && smHas(sm, i.Key) ==> isItem(smEntry(sm, i.Key), i) || (old(smHas(sm, i.Key)) && sameEntry(smEntry(sm, i.Key), old(smEntry(sm, i.Key))))
+//@   ensures [C13] #insert i != nil && !old(smHas(sm, i.Key)) ==> smHas(sm, i.Key) && isItem(smEntry(sm, i.Key), i)
+
+//@ func (sm *shardedMap) Del(key, conflict uint64) (uint64, V)
+//@   requires wfSharded(sm) && bucketDurationSecs > 0
+//@   modifies shardOf(sm, key).data[*], sm.expiryMap.buckets[*][*]
+//@   ensures [C01,C13] #others forall k uint64 :: k != key ==> smHas(sm, k) == old(smHas(sm, k)) && sameEntry(smEntry(sm, k), old(smEntry(sm, k)))
+//@   ensures [C02,C13] #removed old(smHas(sm, key)) && conflictOK(old(smEntry(sm, key)), conflict) ==> !smHas(sm, key) && result0 == old(smEntry(sm, key).conflict) && gcSameRef(result1, old(smEntry(sm, key).value))
+//@   ensures [C01,C02] #kept !(old(smHas(sm, key)) && conflictOK(old(smEntry(sm, key)), conflict)) ==> smHas(sm, key) == old(smHas(sm, key)) && sameEntry(smEntry(sm, key), old(smEntry(sm, key))) && result0 == 0 && gcSameRef(result1, zeroValue[V]())
+
+//@ func (sm *shardedMap) Update(newItem *Item[V]) (V, bool)
+//@   requires wfSharded(sm) && newItem != nil && bucketDurationSecs > 0
+//@   modifies shardOf(sm, newItem.Key).data[*], sm.expiryMap.buckets[*], sm.expiryMap.buckets[*][*]
+//@   ensures [C01,C13] #others forall k uint64 :: k != newItem.Key ==> smHas(sm, k) == old(smHas(sm, k)) && sameEntry(smEntry(sm, k), old(smEntry(sm, k)))
+//@   ensures [C13] #domain smHas(sm, newItem.Key) == old(smHas(sm, newItem.Key))
+//@   ensures [C02,C06] #updated result1 ==> old(smHas(sm, newItem.Key)) && conflictOK(old(smEntry(sm, newItem.Key)), newItem.Conflict) && isItem(smEntry(sm, newItem.Key), newItem) && gcSameRef(result0, old(smEntry(sm, newItem.Key).value))
+//@   ensures [C01,C02] #refused !result1 ==> sameEntry(smEntry(sm, newItem.Key), old(smEntry(sm, newItem.Key)))
+//@   ensures [C01] #absent !old(smHas(sm, newItem.Key)) || !conflictOK(old(smEntry(sm, newItem.Key)), newItem.Conflict) ==> !result1 && gcSameRef(result0, zeroValue[V]())
+
+// ---------------------------------------------------------------- cache.go: the public API (C01, C02, C04, C05, C06, C07, C13, C15, C17)
+
+//@ spec cacheSM[K Key, V any](c *Cache[K, V]) *shardedMap[V] = c.storedItems.(*shardedMap[V])
+//@ spec khash[K Key, V any](c *Cache[K, V], key K) uint64 = gcFst(c.keyToHash(key))
+//@ spec kconf[K Key, V any](c *Cache[K, V], key K) uint64 = gcSnd(c.keyToHash(key))
+//@ spec wfCache[K Key, V any](c *Cache[K, V]) bool = c != nil && wfSharded(cacheSM(c)) && c.cachePolicy != nil && c.getBuf != nil && c.setBuf != nil && (c.Metrics == nil || wfMetrics(c.Metrics)) && bucketDurationSecs > 0
+//@ spec isOpen[K Key, V any](c *Cache[K, V]) bool = c != nil && !c.isClosed.Load()
+
+//@ func (c *Cache) Del(key K)
+//@   requires c == nil || (wfCache(c) && !gcClosed(c.setBuf))
+//@   modifies shardOf(cacheSM(c), khash(c, key)).data[*], cacheSM(c).expiryMap.buckets[*][*], gcChan(c.setBuf)
+//@   ensures [C15] #inert !old(isOpen(c)) ==> gcTail(c.setBuf) == old(gcTail(c.setBuf)) && forall k uint64 :: smHas(cacheSM(c), k) == old(smHas(cacheSM(c), k))
+//@   ensures [C05] #tombstone old(isOpen(c)) ==> gcTail(c.setBuf) == old(gcTail(c.setBuf))+1 && gcAt(c.setBuf, old(gcTail(c.setBuf))) != nil && gcAt(c.setBuf, old(gcTail(c.setBuf))).flag == itemDelete && gcAt(c.setBuf, old(gcTail(c.setBuf))).Key == khash(c, key) && gcAt(c.setBuf, old(gcTail(c.setBuf))).Conflict == kconf(c, key) && gcAt(c.setBuf, old(gcTail(c.setBuf))).wait == nil
+//@   ensures [C05,C02] #removed old(isOpen(c)) && old(smHas(cacheSM(c), khash(c, key))) && conflictOK(old(smEntry(cacheSM(c), khash(c, key))), kconf(c, key)) ==> !smHas(cacheSM(c), khash(c, key))
+//@   ensures [C13] #others forall k uint64 :: k != khash(c, key) ==> smHas(cacheSM(c), k) == old(smHas(cacheSM(c), k)) && sameEntry(smEntry(cacheSM(c), k), old(smEntry(cacheSM(c), k)))
+
+//@ func (c *Cache) Wait()
+//@   requires c == nil || (wfCache(c) && !gcClosed(c.setBuf))
+//@   modifies gcChan(c.setBuf)
+//@   ensures [C15] #inert !old(isOpen(c)) ==> gcTail(c.setBuf) == old(gcTail(c.setBuf))
+//@   ensures [C06] #marker old(isOpen(c)) ==> gcTail(c.setBuf) == old(gcTail(c.setBuf))+1 && gcAt(c.setBuf, old(gcTail(c.setBuf))) != nil && gcAt(c.setBuf, old(gcTail(c.setBuf))).wait != nil
+//@   ensures [C06] #waited old(isOpen(c)) ==> gcAwaited(gcAt(c.setBuf, old(gcTail(c.setBuf))).wait)
+
+// ---------------------------------------------------------------- ring.go and the Get path (C17, C08)
+
+//@ func (p *defaultPolicy) Push(keys []uint64) bool
+//@   requires p != nil && (p.metrics == nil || wfMetrics(p.metrics)) && (p.isClosed || !gcClosed(p.itemsCh))
+//@   modifies gcMtot[*], gcChan(p.itemsCh)
+//@   ensures [C17] #kept result && len(keys) > 0 && p.metrics != nil ==> mtot(p.metrics, keepGets) == old(mtot(p.metrics, keepGets))+uint64(len(keys)) && mtot(p.metrics, dropGets) == old(mtot(p.metrics, dropGets))
+//@   ensures [C17] #dropped !result && !p.isClosed && p.metrics != nil ==> mtot(p.metrics, dropGets) == old(mtot(p.metrics, dropGets))+uint64(len(keys)) && mtot(p.metrics, keepGets) == old(mtot(p.metrics, keepGets))
+//@   ensures [C17] #others forall q *Metrics, u metricType :: q != p.metrics || (u != keepGets && u != dropGets) ==> mtot(q, u) == old(mtot(q, u))
+//@   ensures [C17] #closed p.isClosed || len(keys) == 0 ==> forall q *Metrics, u metricType :: mtot(q, u) == old(mtot(q, u))
+//@   ensures [C08] #open gcClosed(p.itemsCh) == old(gcClosed(p.itemsCh))
+
+//@ spec wfStripe(s *ringStripe) bool = s != nil && s.cons != nil && s.capa > 0 && len(s.data) < s.capa && wfConsumer(s.cons.(*defaultPolicy[int]))
+//@ spec wfConsumer(p *defaultPolicy[int]) bool = p != nil && (p.metrics == nil || wfMetrics(p.metrics)) && (p.isClosed || !gcClosed(p.itemsCh))
+
+//@ func (s *ringStripe) Push(item uint64)
+//@   requires wfStripe(s)
+//@   modifies s.data, s.data[*], gcMtot[*], gcChan(s.cons.(*defaultPolicy[int]).itemsCh)
+//@   ensures [C17] #stripe wfStripe(s)
+//@   ensures [C17] #batch forall u metricType :: u != keepGets && u != dropGets ==> forall q *Metrics :: mtot(q, u) == old(mtot(q, u))
+//@   ensures [C17] #nodouble s.cons.(*defaultPolicy[int]).metrics != nil ==> mtot(s.cons.(*defaultPolicy[int]).metrics, keepGets)+mtot(s.cons.(*defaultPolicy[int]).metrics, dropGets)-old(mtot(s.cons.(*defaultPolicy[int]).metrics, keepGets)+mtot(s.cons.(*defaultPolicy[int]).metrics, dropGets)) <= uint64(s.capa)
+
+// ringBuffer.Push is three lines of glue around a sync.Pool (Get a stripe, Push, Put):
+// stripes are owned by the pool and unreachable from caller-visible state, so its
+// contract is assumed from ringStripe.Push's (trusted: sync.Pool hands a stripe to
+// one goroutine at a time and every pooled stripe satisfies wfStripe).
+//@ func (b *ringBuffer) Push(item uint64)
+//@   trusted sync.Pool ownership: the contract restates ringStripe.Push for a pool-owned stripe
+//@   requires b != nil
+//@   modifies gcMtot[*]
+//@   ensures [C17] forall u metricType :: u != keepGets && u != dropGets ==> forall q *Metrics :: mtot(q, u) == old(mtot(q, u))
+
+//@ func (c *Cache) Get(key K) (V, bool)
+//@   requires c == nil || wfCache(c)
+//@   modifies gcMtot[*]
+//@   ensures [C15] #inert !isOpen(c) ==> !result1 && gcSameRef(result0, zeroValue[V]()) && forall q *Metrics, u metricType :: mtot(q, u) == old(mtot(q, u))
+//@   ensures [C01] #stored result1 ==> smHas(cacheSM(c), khash(c, key)) && gcSameRef(result0, smEntry(cacheSM(c), khash(c, key)).value) && conflictOK(smEntry(cacheSM(c), khash(c, key)), kconf(c, key)) && smEntry(cacheSM(c), khash(c, key)).key == khash(c, key)
+//@   ensures [C07] #live result1 ==> entryLive(smEntry(cacheSM(c), khash(c, key)), gcNow())
+//@   ensures [C07] #notearly isOpen(c) && !result1 && smHas(cacheSM(c), khash(c, key)) && conflictOK(smEntry(cacheSM(c), khash(c, key)), kconf(c, key)) ==> !entryLive(smEntry(cacheSM(c), khash(c, key)), gcNow())
+//@   ensures [C17] #hitmiss isOpen(c) && c.Metrics != nil ==> mtot(c.Metrics, hit) == old(mtot(c.Metrics, hit))+ite(result1, uint64(1), uint64(0)) && mtot(c.Metrics, miss) == old(mtot(c.Metrics, miss))+ite(result1, uint64(0), uint64(1))
+//@   ensures [C17] #others forall q *Metrics, u metricType :: u != hit && u != miss && u != keepGets && u != dropGets ==> mtot(q, u) == old(mtot(q, u))
+
+//@ func (c *Cache) GetTTL(key K) (time.Duration, bool)
+//@   requires c == nil || wfCache(c)
+//@   ensures [C07] #present result1 ==> smHas(cacheSM(c), khash(c, key))
+//@   at call Until#1 assert [C07] #live !gcNow().After(expiration) && expiration == smEntry(cacheSM(c), khash(c, key)).expiration
+//@   ensures [C07] #noexpiry result1 && smEntry(cacheSM(c), khash(c, key)).expiration.IsZero() ==> result0 == 0
+//@   ensures [C07] #remaining result1 && !smEntry(cacheSM(c), khash(c, key)).expiration.IsZero() ==> result0 == smEntry(cacheSM(c), khash(c, key)).expiration.Sub(gcNow())
+
+//@ func (c *Cache) MaxCost() int64
+//@   requires c == nil || c.cachePolicy == nil || c.cachePolicy.evict == nil || true
+//@   modifies gcMaxCostLast
+//@   ensures [C03] c != nil && c.cachePolicy != nil && c.cachePolicy.evict != nil ==> result == gcMaxCostLast
+
+//@ func (c *Cache) RemainingCost() int64
+//@   requires c == nil || c.cachePolicy != nil
+//@   modifies gcMaxCostLast
+//@   ensures [C03] c != nil ==> result == gcMaxCostLast-gcSum(c.cachePolicy.evict.keyCosts)
